@@ -103,3 +103,12 @@ def install(eng: Any) -> None:
         return eng.run_function(eng.fctx_for(real_wco), None, [self_, calendar_ordinal], {}, key=None)
 
     eng.func_models[real_wco] = wco
+
+    real_wc = raw(YMD, "_with_calendar")
+
+    def wc(eng: Any, self_: Any, calendar: Any) -> Any:
+        if isinstance(self_, SObj) and "$y" in self_.fields:
+            return wco(eng, self_, eng.get_attr(calendar, "_ordinal"))
+        return eng.run_function(eng.fctx_for(real_wc), None, [self_, calendar], {}, key=None)
+
+    eng.func_models[real_wc] = wc
